@@ -1,0 +1,30 @@
+//go:build verif
+
+// Verification hooks (build tag "verif"): read-only re-exports that let the external
+// verification harness in /verif drive internal code in-process. Nothing here is compiled
+// into a normal build.
+
+package mcp
+
+import (
+	"context"
+
+	"trpc.group/trpc-go/trpc-mcp-go/internal/retry"
+)
+
+// VerifRetryConfig mirrors internal/retry.Config.
+type VerifRetryConfig = retry.Config
+
+// VerifRetryExecute re-exports internal/retry.Execute.
+func VerifRetryExecute(ctx context.Context, op func() error, cfg *VerifRetryConfig, name string) error {
+	return retry.Execute(ctx, op, cfg, name)
+}
+
+// VerifRetryIsRetryable re-exports internal/retry.IsRetryableError.
+func VerifRetryIsRetryable(err error) bool { return retry.IsRetryableError(err) }
+
+// VerifRetryValidate re-exports internal/retry.Config.Validate.
+func VerifRetryValidate(c VerifRetryConfig) VerifRetryConfig { return c.Validate() }
+
+// VerifClientRetryConfig returns the retry configuration a client ended up with (nil = none).
+func VerifClientRetryConfig(c *Client) *VerifRetryConfig { return c.retryConfig }
